@@ -48,7 +48,7 @@ SPEC = {
     'nn.jit compares module fingerprints by equality of the fingerprint tuples (after the repair cfc8239; before, by hash only): attribute values that are == (1, True, 1.0) share a trace, as for JAX static arguments',
     'cond/switch/while_loop bodies draw no rngs (tracing every branch / the loop body once advances the shared counters; not promised by the property)',
     'lifted control flow is compared with Python control flow on the domain where JAX can trace it: every branch traces without error and with one tree structure; the loop body preserves the carry structure (documented in lift.cond / lift.while_loop)',
-    'one scope tree leaf per transformed module (no Module or Variable passed as attribute or argument); child scopes of that module are modelled by path-prefixed variable names and path-keyed counters (inChild / rngAt), one theorem (pack_transparent_child) and the setup-child correspondence',
+    'one scope tree leaf per transformed module (no Module or Variable passed as attribute or argument); child scopes of that module at any depth are modelled by path-prefixed variable names and path-keyed counters (inChild / inPath / rngAt; theorems pack_transparent_child, pack_transparent_path); the reference sharing between a bound descendant Scope and the nested variable dicts (the in-place merge of put_variable) is NOT modelled (variables are values in the model) and is tied by the deepchild implementation oracle (depth 1-3) only; rng counters are modelled by reference one level deep (counter_delta_restore)',
   ],
   'model_partial': [
     'counter_delta_restore_partial (flat, single stream) is kept for the path-keyed `restoreCounters` the driver executes; the general statement is now proved as counter_delta_restore over the counter heap (nested dicts shared by reference, any number of streams and children, one level of nesting); deeper nesting than one child level and the equivalence flat-keys <-> heap are not proved (tied by the setup-child correspondence)',
@@ -1224,6 +1224,110 @@ def gen_setupchild_case(rng):
 
 
 # ------------------------------------------------------------------------------------------------
+# setup-style descendants (depth 1-3) with mutable state used BEFORE, INSIDE and AFTER a lifted call in one apply
+# ------------------------------------------------------------------------------------------------
+
+
+def check_deepchild_case(ctx, case):
+  """Top -> mid -> … -> counter (setup-defined, `depth` levels below the lifted scope).  The counter holds mutable
+  state; it is used before the lifted call (so its Scope is bound and holds a reference into the variable dict), updated
+  inside nn.cond / nn.switch / a jitted, rematted or identity-map_variables method, and used again afterwards within
+  the same apply.  Oracle: outputs and the returned mutable collection equal the Python control flow / the plain method
+  (also on a repeated apply, which hits the jit cache)."""
+  t, depth, step = case['transform'], case['depth'], case['step']
+
+  class Counter(nn.Module):
+    @nn.compact
+    def __call__(self, x):
+      c = self.variable('state', 'count', lambda: I(case['init0']))
+      c.value = c.value + step
+      return x * c.value
+
+  def mk_mid(inner_cls):
+    def setup(self):
+      self.inner = inner_cls()
+
+    def call(self, x):
+      return self.inner(x)
+
+    M = type('Mid', (nn.Module,), {'setup': setup, '__call__': call})
+    lp.KEEP_ALIVE.append(M)
+    return M
+
+  chain = Counter
+  for _ in range(depth - 1):
+    chain = mk_mid(chain)
+  lp.KEEP_ALIVE.append(Counter)
+
+  def build(lifted):
+    deco = (lambda f: f)
+    if lifted and t == 'jit':
+      deco = nn.jit
+    elif lifted and t == 'remat':
+      deco = nn.remat
+    elif lifted and t == 'mapvars':
+      deco = lambda f: nn.map_variables(f, 'state', mutable=True)
+
+    def setup(self):
+      self.mid = chain()
+
+    def middle(self, x):
+      return self.mid(x)
+
+    def call(self, x, sel):
+      a = tuple(self.mid(x) for _ in range(case['pre']))
+      br = [(lambda m, v, k=k: m.mid(v) + k) for k in range(case['nbranch'])]
+      if t in ('jit', 'remat', 'mapvars'):
+        b = self.middle(x)
+      elif lifted and t == 'cond':
+        b = nn.cond(sel, br[0], br[1], self, x)
+      elif lifted:
+        b = nn.switch(sel, br, self, x)
+      elif t == 'cond':
+        b = br[0](self, x) if bool(sel) else br[1](self, x)
+      else:
+        b = br[min(max(int(sel), 0), len(br) - 1)](self, x)
+      c = tuple(self.mid(x) for _ in range(case['post']))
+      return a, b, c
+
+    T = type('DeepTop', (nn.Module,), {'setup': setup, 'middle': deco(middle), '__call__': call})
+    lp.KEEP_ALIVE.append(T)
+    return T
+
+  sel = jnp.asarray(bool(case['sel'])) if t == 'cond' else I(case['sel'])
+  leaf = {'count': I(case['count'])}
+  tree = leaf
+  for _ in range(depth - 1):
+    tree = {'inner': tree}
+  variables = {'state': {'mid': tree}}
+  canon = lambda out: jax.tree.map(lambda v: np.asarray(v).tolist(), out)
+  runs = {}
+  for which in ('plain', 'lifted'):
+    T = build(which == 'lifted')
+    rs = []
+    for _ in range(case['repeats']):
+      if case['init']:
+        rs.append(lp.call(lambda: canon(T().init_with_output(jax.random.key(0), I(case['x']), sel))))
+      else:
+        rs.append(lp.call(lambda: canon(T().apply(variables, I(case['x']), sel, mutable=['state']))))
+    runs[which] = rs
+  ctx.case(case)
+  ctx.count('transform', f'deepchild-{t}/depth{depth}' + ('/init' if case['init'] else ''))
+  for i, (p, l) in enumerate(zip(runs['plain'], runs['lifted'])):
+    if p != l:
+      ctx.violation(f'deepchild-{t}-differs', f'nn.{t} over a scope whose depth-{depth} descendant holds mutable state used before, inside and after the call (apply {i + 1}): transformed (outputs, updated collection) {l} vs plain {p} on {json.dumps(case)}', case)
+      return
+
+
+def gen_deepchild_case(rng):
+  t = rng.choice(['cond', 'switch', 'cond', 'switch', 'jit', 'remat', 'mapvars'])
+  return {'kind': 'deepchild', 'transform': t, 'depth': rng.choice([1, 2, 2, 3]), 'step': rng.randrange(1, 3), 'init0': rng.randrange(0, 2),
+          'count': rng.randrange(0, 4), 'x': rng.randrange(1, 4), 'pre': rng.randrange(0, 3), 'post': rng.randrange(1, 3),
+          'nbranch': 2 if t == 'cond' else rng.randrange(1, 4), 'sel': (rng.random() < 0.5) if t == 'cond' else rng.choice([-1, 0, 1, 2, 4]),
+          'repeats': 2, 'init': rng.random() < 0.2}
+
+
+# ------------------------------------------------------------------------------------------------
 # finding B2: a jitted *method* that creates auto-named sub-modules, called twice in one compact method
 # ------------------------------------------------------------------------------------------------
 
@@ -1354,6 +1458,8 @@ def run_case(ctx, drv, case):
     check_autoname_case(ctx, case)
   elif k == 'setupchild':
     check_setupchild_case(ctx, drv, case)
+  elif k == 'deepchild':
+    check_deepchild_case(ctx, case)
   else:
     ctx.notes.append(f'unknown corpus case kind {k}')
 
@@ -1366,7 +1472,7 @@ def run(ctx):
     ctx.corpus_replayed += 1
     run_case(ctx, drv, obj.get('case', obj))
   scale = 12 if thorough else 1
-  plan = [('setupchild', 14), ('autoname', 12), ('history', 34), ('jit', 30), ('remat', 44), ('mapvars', 40), ('cond', 38), ('switch', 32), ('while', 32)]
+  plan = [('deepchild', 18), ('setupchild', 14), ('autoname', 12), ('history', 34), ('jit', 30), ('remat', 44), ('mapvars', 40), ('cond', 38), ('switch', 32), ('while', 32)]
   cases = []
   for what, n in plan:
     for _ in range(n * scale):
@@ -1378,6 +1484,8 @@ def run(ctx):
         cases.append(gen_autoname_case(rng))
       elif what == 'setupchild':
         cases.append(gen_setupchild_case(rng))
+      elif what == 'deepchild':
+        cases.append(gen_deepchild_case(rng))
       else:
         cases.append(gen_ctrl_case(rng, what))
   for case in cases:
